@@ -101,7 +101,7 @@ _NUMERAL = re.compile(rb'^([+-]?)([0-9]*)(\.([0-9]*))?(([EDed])([+-]?)([0-9]*))?
 
 
 class Numeral(object):
-    __slots__ = ('neg', 'dint', 'x', 'sig_all', 'sig_min', 'expletter', 'sigil', 'plain_int', 'blanks')
+    __slots__ = ('neg', 'signed', 'dint', 'x', 'sig_all', 'sig_min', 'expletter', 'sigil', 'plain_int', 'blanks')
 
 
 def parse_numeral(text):
@@ -117,6 +117,7 @@ def parse_numeral(text):
     n = Numeral()
     n.blanks = t != raw
     n.neg = sign == b'-'
+    n.signed = sign != b''
     ds = ip + fp
     n.dint = int(ds) if ds else 0
     x = 0
